@@ -98,7 +98,8 @@ type Scenario struct {
 
 var writeKinds = []string{
 	"result", "error", "result-payload", // matching replies
-	"other-id",   // reply type, different id
+	"other-id",                    // reply type, different id
+	"reply-noid", "reply-emptyid", // reply type, the id attribute forgotten / empty
 	"get", "set", // requests with the request's id
 	"type-empty", "type-unknown", "type-absent", "type-upper", // same id, not a reply type
 	"nested",     // other element containing <iq id=req type=result/>
@@ -552,7 +553,7 @@ func (st *runState) marker() string {
 type encIQ struct {
 	XMLName xml.Name
 	Type    string `xml:"type,attr,omitempty"`
-	ID      string `xml:"id,attr"`
+	ID      string `xml:"id,attr,omitempty"`
 	To      string `xml:"to,attr,omitempty"`
 	HW      string `xml:"hw,attr"`
 	Inner   string `xml:",innerxml"`
@@ -593,6 +594,11 @@ func (st *runState) build(w Write, reqID, reqFrom string, marker string) (toks [
 		return el(iq, append(at("type", "result", "id", reqID), hw), pay...), true, false
 	case "other-id":
 		return el(iq, append(at("type", "result", "id", reqID+"x"), hw)), false, false
+	case "reply-noid":
+		// stanza.IQ{Type: stanza.ResultIQ, To: from}.Wrap(nil) with the ID forgotten
+		return el(iq, append(withTo(at("type", pick2(marker, "result", "error"))), hw)), false, false
+	case "reply-emptyid":
+		return el(iq, append(withTo(at("type", "result", "id", "")), hw)), false, false
 	case "get", "set":
 		return el(iq, append(at("type", w.Kind, "id", reqID), hw), pay...), false, false
 	case "type-empty":
@@ -675,7 +681,7 @@ func (st *runState) exec(rw xmlstream.TokenReadEncoder) error {
 			// the same element as a struct through Encode: only shapes a struct can
 			// express faithfully (non-empty type, iq name)
 			se := toks[0].(xml.StartElement)
-			if se.Name.Local == "iq" && len(toks) == 2 && w.Kind != "type-empty" && w.Kind != "type-absent" {
+			if se.Name.Local == "iq" && len(toks) == 2 && w.Kind != "type-empty" && w.Kind != "type-absent" && w.Kind != "reply-emptyid" {
 				v := encIQ{XMLName: se.Name, HW: m}
 				for _, a := range se.Attr {
 					switch a.Name.Local {
@@ -1205,6 +1211,8 @@ func judge(c *core.Case, sc Scenario, o sess.Opts, st *runState, written []byte,
 					return "pseudo-reply-type"
 				case kinds["nested"]:
 					return "nested-iq"
+				case kinds["reply-noid"] || kinds["reply-emptyid"]:
+					return "reply-without-id"
 				case kinds["other-id"]:
 					return "other-id"
 				case kinds["get"] || kinds["set"]:
@@ -1323,6 +1331,12 @@ func judge(c *core.Case, sc Scenario, o sess.Opts, st *runState, written []byte,
 	}
 	c.Count("handler_elements_written", len(st.writes))
 	for _, w := range st.writes {
+		if w.Err == nil && (w.Kind == "reply-noid" || w.Kind == "reply-emptyid") && classes[w.Stanza].Constrained {
+			c.Count("handler_wrote_reply_without_id_to_request", 1)
+			c.Count("handler_wrote_"+w.Kind+"_"+modeKey(sc.Mode), 1)
+		}
+	}
+	for _, w := range st.writes {
 		if w.Abandoned && w.Err == nil {
 			c.Count("handler_abandoned_element", 1)
 			if w.Reply {
@@ -1371,10 +1385,18 @@ func attrOf(se *xml.StartElement, local string) string {
 	return ""
 }
 
+// pick2 chooses between two strings from a marker (no PRNG in the handler).
+func pick2(marker, a, b string) string {
+	if n, _ := strconv.Atoi(marker); n%2 == 0 {
+		return a
+	}
+	return b
+}
+
 func kindSig(p Program) string {
 	cat := map[string]string{
 		"result": "reply", "error": "reply", "result-payload": "reply",
-		"other-id": "other-id", "get": "request", "set": "request",
+		"other-id": "other-id", "reply-noid": "other-id", "reply-emptyid": "other-id", "get": "request", "set": "request",
 		"type-empty": "pseudo", "type-unknown": "pseudo", "type-absent": "pseudo", "type-upper": "pseudo",
 		"nested": "nested", "message": "non-iq", "presence": "non-iq", "presence-open": "non-iq", "foreign-iq": "foreign", "otherns-iq": "otherns",
 	}
@@ -1493,6 +1515,7 @@ func Prop() *core.Prop {
 			"collision_cases", "collision_barrier_reached", "collision_own_request_on_wire", "collision_request_reached_handler", "collision_requester_got_response",
 			"collision_via_SendIQ", "collision_via_SendIQElement", "collision_via_UnmarshalIQ", "collision_via_SendMessage", "collision_via_SendPresence",
 			"session_websocket", "ws_answered_by_library", "mode_serve-nil", "serve_nil_answered_by_library",
+			"handler_wrote_reply_without_id_to_request", "handler_wrote_reply-noid_bare", "handler_wrote_reply-noid_mux", "handler_wrote_reply-emptyid_bare", "handler_wrote_reply-emptyid_mux",
 			"handler_abandoned_reply", "handler_abandoned_other_element", "answered_by_handler_after_an_abandoned_element",
 			"incoming_qualified_attr_own_ns", "incoming_qualified_attr_foreign_ns",
 			"handler_returned_wrapping_error", "request_handler_returned_wrapped_eof",
